@@ -208,4 +208,60 @@ PROPS = {
         "search: random headers/members over boundary values (0,1,127,128,250..252,255,256,16383,16384,65534,65535) encoded with the real codecs, then left valid / truncated at every length / corrupted / extended / replaced by random bytes; real decoder vs Lean decoder through the driver; round trip with a suffix; encode into every buffer size below the encoded length. " + RULE_HIST,
         ["serde derive visits fields in declaration order (checked by correspondence, not proved)"],
     ),
+
+    "C02": P(
+        "Fault-free cluster: full discovery and zero false suspicion",
+        {
+            "Alive knowledge never creates suspicion (a calm list stays calm under Alive updates, any RNG draw, any conflict outcome)": "theorem (full): alive_updates_keep_the_list_calm",
+            "sender liveness learned from every header; Ping answered with its Ack; an acked round raises no suspicion; Announce answered with Feed": "theorem (full): sender_is_learned_from_header, ping_gets_its_ack, acked_round_raises_no_suspicion, announce_gets_a_feed",
+            "zero false suspicion over whole fault-free cluster runs (network + clocks)": "partial: composition of the lemmas above over a cluster is not a Lean theorem; explored by the discrete-event simulator on the real crate (state checked after every event)",
+            "full discovery within a linear number of probe periods": "partial and FALSE in general: holds in the simulator whenever every joiner announces to a settled member or to one common seed; fails when a joiner announces to a member whose own view is not settled yet (KNOWN FINDING F7, protocol limitation, not repaired)",
+        },
+        "search: discrete-event simulation of 2..6 (thorough: ..12) real instances, latencies below probe_rtt/4, three join schedules (settled random seed, one common seed with simultaneous joiners, rapid joins through unsettled seeds), fan-out 1..3, max_transmissions 1..10, periodic gossip/announce on or off, packet sizes from feeds-the-whole-cluster to 1400 and (safety only) too small; safety judged after every event, discovery after 3n+6 periods; distinct by parameter hash, non-trivial when n >= 3. " + RULE_HIST,
+        ["transport delivers every datagram within probe_rtt/4 and the runtime fires every timer on time (simulator)", "discovery clause: known finding F7 for unsettled seeds"],
+        quick={"corr_cases": 20000, "search": 400000}, thorough={"corr_cases": 400000, "search": 12000000},
+    ),
+    "C03": P(
+        "Completeness: crashed or departed members are reported Down everywhere, bounded",
+        {
+            "leave_cluster queues Down(self), gossips it to active members, ends Defunct": "theorem (full): leave_declares_itself_down, leave_queues_down_update",
+            "a departed member stops answering and (since the fix for F8) no longer refutes suspicion": "theorem (full): departed_member_stops_answering, departed_member_does_not_refute",
+            "receivers of the Down gossip report MemberDown at once; a silent member is handed over for suspicion": "theorem (full): down_update_is_reported_at_once, silent_member_is_suspected (with C11/C12/C14 theorems)",
+            "every survivor reports every failed member within (2n+1) periods + suspect_to_down_after; no survivor declared Down": "partial: real-time composition explored by the simulator only (every subset failing, crash or leave, at random event indices)",
+        },
+        "search: simulator, directly formed clusters of 2..6 (thorough ..12) real instances, every non-empty proper subset failing (crash or graceful leave) at a random event index, latencies and seeds varied; per survivor the time of MemberDown for each failed member is compared with the bound; no MemberDown/Defunct/Rejoin for survivors. " + RULE_HIST,
+        ["timers on time, latencies below probe_rtt/4 (simulator)"],
+    ),
+    "C04": P(
+        "A single lost datagram never gets a live member declared Down",
+        {
+            "a higher header incarnation refutes the suspicion at the receiver; the pending timeout then does nothing (no TurnUndead since the fix for F2)": "theorem (full): higher_incarnation_refutes_at_receiver, refuted_timeout_does_nothing, C11.cancelled_timeout_is_noop",
+            "the suspected member bumps its incarnation strictly above the suspicion; a suspicion needs the current incarnation": "theorem (full): suspected_member_bumps_incarnation, suspicion_needs_current_incarnation",
+            "no MemberDown/Defunct/Rejoin anywhere and re-convergence after any single drop": "partial: real-time race between refutation and timeout explored by the simulator (every datagram index in a window, n = 2..6, notify_down_members on/off, renewable or not)",
+        },
+        "search: simulator, formed cluster, exactly one datagram (by send serial number, any kind) dropped in a window after warm-up; oracle: no MemberDown/Defunct/Rejoin afterwards and everybody lists everybody Alive at the horizon. " + RULE_HIST,
+        ["timers on time, latencies below probe_rtt/4 (simulator)"],
+    ),
+    "C05": P(
+        "Auto-rejoin: a healed partition converges back without hand-holding",
+        {
+            "a Down sender is told so; a renewable instance told it is down switches to a differing, winning identity of its address, restarts at incarnation 0 and notifies Rejoin": "theorem (full): down_sender_is_told, change_identity_resets, told_down_renews_identity",
+            "the renewed identity supersedes the Down record of its predecessor (Rename + MemberUp); Announce is accepted by address": "theorem (full): renewed_identity_supersedes_down_record, announce_is_accepted_by_address",
+            "datagrams to a previous identity are ignored": "theorem (full): datagrams_to_a_previous_identity_are_ignored - the mechanism behind finding F9",
+            "after the heal every live instance lists every other within a bounded number of announce periods": "FALSE on the current tree: KNOWN FINDING F9 (about 4-5% of simulated healed partitions end with every node renewed at the same time and Disconnected forever); every other simulated run converges; not a theorem",
+        },
+        "search: simulator, clusters of 3..6 (thorough ..12), every two-sided split (bit mask) including single-node sides, partition long enough for mutual Down, heal, 8 announce-to-down periods; oracle: Rejoin never Defunct, winning identity, Active after Rejoin, full mutual listing under current identities. " + RULE_HIST,
+        ["renewable identities (bump), notify_down_members and periodic_announce_to_down_members enabled", "known finding F9"],
+    ),
+    "C18": P(
+        "Reply cascades terminate: no message storms",
+        {
+            "every request kind has exactly one automatic answer, of strictly lower rank; non-request kinds have none; one datagram per answer": "theorem (full): replies_descend, reply_table, one_datagram_per_answer",
+            "idle/defunct instances do not reply; inactive senders get at most one TurnUndead": "theorem (full): disconnected_instances_do_not_reply, inactive_sender_gets_at_most_turnundead",
+            "two members that consider each other Down do not bounce TurnUndead": "theorem (full): turnundead_from_down_member_is_not_answered_when_defunct - false before the fix: commit for F3",
+            "global termination of the exchange among 2-3 instances in arbitrary mutual-knowledge states": "partial: the well-founded measure across instances (DESIGN.md Appendix B) is not formalised; explored by the simulator with timers held (cap 300 deliveries)",
+        },
+        "search: simulator with timers held: 2-3 real instances in random mutual-knowledge states (alive, suspect, down, newer/older identity; some left the cluster), all four renew policies, notify_down_members on/off, one initial datagram of each of the 11 kinds, deliveries until the network is empty; violation when more than 300 deliveries or more than a bounded fan-out per delivery. " + RULE_HIST,
+        [],
+    ),
 }
